@@ -5,6 +5,7 @@
    generated scanner with this specification is done by the correspondence check.)
 -/
 import Theo.Proofs.LexProofs
+import Theo.Spec.Keywords
 
 namespace Theo
 
@@ -65,6 +66,14 @@ theorem C14_lines (content : Bytes) (k : Nat) (l : Nat × Bytes × Nat)
 theorem C14_keywords :
     LexGen.keywords.all (fun e => lexBuffer e.1 == [⟨e.2, e.1, 1⟩]) = true :=
   keywords_lex
+
+/-- the spellings of the scanner specification are exactly the documented ones, with the
+    documented kinds (pinned table `Theo/Spec/Keywords.lean`): no spelling added, dropped or
+    re-kinded -/
+theorem C14_keywords_documented :
+    (LexGen.keywords.all (fun e => documentedKeywords.contains e) &&
+     documentedKeywords.all (fun e => LexGen.keywords.contains e)) = true := by
+  decide +kernel
 
 /-- a lexeme matched by no rule but the catch-all is a single byte with kind NV_ID:
     the last rule of lexer.l is `.|\n`, i.e. any one byte, with action NV_ID -/
